@@ -4,6 +4,7 @@ boundaries fall: CBinaryStreamReader over a stream answers what the trivial in-m
 import stream_common as S
 
 LEVEL = "proof"
+EXTRA_PROPERTIES = ["C10mp"]     # MsgPack stream reader = string reader on every byte string, composed with the chunked reader refinement
 TRUSTED_BASE = [
     "Coq 8.16.1 kernel incl. vm_compute (only for the Examples / the refuting witness); no native_compute",
     "axioms: none (every T_C10_bsr_* theorem prints 'Closed under the global context')",
@@ -201,11 +202,22 @@ def run(ctx, vlib):
     diffs += mp["diffs"]
     classes.update(mp["classes"])
     nontriv += mp["evaluations"] // 2
+    # the MsgPack stream reader's own model (coq/MpStreamModel.v, Properties_C10mp.v): extracted model run on the in-memory
+    # reader and on the chunked reader model (K = 8, 256) vs the real stream reader (chunk 256 and hook build 8) vs the real
+    # string reader, on every format family behind pads of every length, truncations, random documents and sequences
+    import C10mp
+    ms = C10mp.run_mpstream(ctx, vlib)
+    failing += ms.get("failing", [])[: max(0, 20 - len(failing))]
+    diffs += ms.get("diffs", [])
+    for k, v in ms.get("classes", {}).items():
+        classes["mpstream " + str(k)] = v
+    known += ms.get("known_lines", [])
+    nontriv += ms.get("distinct_nontrivial", 0)
     cs = csv_mem_vs_stream(ctx, vlib)
     failing += cs["failing"]
     classes.update(cs["classes"])
     nontriv += cs["evaluations"] // 2
-    return dict(evaluations=len(cases) + len(jl) + mp["evaluations"] + cs["evaluations"], distinct_nontrivial=nontriv, samples=samples, classes=classes,
+    return dict(evaluations=len(cases) + len(jl) + mp["evaluations"] + cs["evaluations"] + ms.get("evaluations", 0), distinct_nontrivial=nontriv, samples=samples, classes=classes,
                 failing=failing, diffs=diffs, known_lines=known,
                 rule="random sequences (<= 40) of the nine CBinaryStreamReader operations over data of length 0..3K (lengths and positions at K-1,K,K+1,2K-1,..,3K), boundary scripts for every squeeze size / window edge, the callers' ReadByChunks loop, x stream kinds {istringstream, short-read seekable streambuf 1..k bytes per underflow, non-seekable streambuf} x K in %s; every implementation trace on a seekable stream is additionally checked by the extracted reference reader; `is` ops validate the modelled istream; document level: MsgPack read sequences (every first byte x tails, random documents, truncations, corruptions, documents shifted across the chunk boundary by a leading string of every length around 0/256/512) through the string reader and the stream reader (chunk 256 and 8), which must agree with each other and with the MsgPack model; non-trivial = distinct case that refills the window or seeks" % ks,
                 exhaustive=False, broken="correspondence stream model (M-BSR / M-IS) vs binary_stream_reader.cpp (drv_stream)",
